@@ -8,14 +8,18 @@ from ..core import Verdict, close
 from ..refs import units_ref as R
 
 ID = "C03"
-RULE = ("Unit-expression ASTs (prefixed table atoms incl. constants and #system units, integer / n:d exponents with denominators up to 1024, numeric "
-        "factors, * / and nested parentheses) rendered without blanks; oracle = dictionary lexer over the published "
-        "tables with exact Fraction dimension vectors and float factors (BaseUnits.magnitude, .dimensions, unit ids, "
-        "Quantity(1,text) total factor, expression round-trip). Rejection: a valid expression with one atom corrupted "
-        "(foreign characters in front, unknown symbol, inadmissible prefix) and, exhaustively, every string "
-        "<one ASCII letter>+<admissible atom> and every <prefix>+<symbol> pair: must parse to the dictionary entry "
-        "if it is one, else must raise. Non-trivial: >=2 terms with a prefix and an exponent != 1, or a rejection "
-        "string whose suffix is a valid atom, or an accepted prefixed atom. Distinct = distinct case JSON.")
+RULE = (
+    'Unit-expression ASTs (prefixed table atoms incl. constants and #system units, integer / n:d exponents with '
+    'denominators up to 1024, numeric factors, * / and nested parentheses) rendered without blanks; oracle = '
+    'dictionary lexer over the published tables with exact Fraction dimension vectors and float factors '
+    '(BaseUnits.magnitude, .dimensions, unit ids, Quantity(1,text) total factor, expression round-trip). '
+    'Rejection: a valid expression with one atom corrupted (foreign characters in front, unknown symbol, '
+    'inadmissible prefix) and, exhaustively, every string <one ASCII letter>+<admissible atom> and every '
+    '<prefix>+<symbol> pair: must parse to the dictionary entry if it is one, else must raise. Non-trivial: >=2 '
+    'terms with a prefix and an exponent != 1, or a rejection string whose suffix is a valid atom, or an accepted '
+    "prefixed atom. Later rounds: negative numeric factors ('-2*km', 'm/-4'); a coverage-guided unit over the "
+    'same strategy. Distinct = distinct case JSON.'
+)
 ASSUMPTIONS = [
     "table rows (factor, dimension vector, admissible prefixes) are the specification",
     "no blanks inside unit expressions (none documented)",
